@@ -6,6 +6,8 @@ RULE = ("random engines (1-3 exchanges with links healthy/closed(receiver droppe
         "the audit outputs/errors, every instrument's order table, trading state. Distinct by SHA-1 of op lines; non-trivial when the observations change at least once")
 ASSUMPTIONS = [
     "PARTIAL (runtime): an unbounded tokio mpsc channel accepts a send iff its receiver is alive and delivers FIFO - assumption of the model, exercised (not proved) by the correspondence run",
+    "links: besides healthy / receiver dropped / no transmitter, the generic MultiExchangeTxMap<Tx> is also instantiated with a transmitter that refuses every item with an error that is not is_unrecoverable() "
+    "(letter U; the default UnboundedTx can never answer that, the engine's Recoverable(ExecutionChannelUnhealthy) arm exists for every other Tx): reported failed, not fatal, not delivered, no in-flight mark, the tick goes on",
     "strategy output and risk verdict are arbitrary per-tick inputs (the risk manager is modelled as a partition of the strategy's requests by a predicate on the order key)",
     "requests name instruments the engine knows (record_in_flight panics otherwise)",
     "cancel_orders iterates a hash map: the order of the cancel requests it generates within one instrument is canonicalised (sorted by client order id) on both sides",
